@@ -98,6 +98,10 @@ func checkC20(c *Ctx) {
 		}
 	}
 	checkSQLRules(c, l, "SQL-schema", "SQL-arity", "SQL-roles")
+	checkSQLTableListOrder(c, l, "SQL-table-list-order")
+	checkV2SnapshotLoadsLeaves(c, l, "FLOW-snapshot-loads-leaves")
+	checkV2ReplayLeafValue(c, l, "TYPESTATE-replay-leaf-value")
+	checkV2ShardResolution(c, l, "FLOW-shard-resolution")
 	checkV2CheckpointRules(c, l)
 	checkReplayVersion(c, l)
 	c.rule("SIB-memoize", "FindMemoized agrees with Find", 2)
@@ -428,5 +432,85 @@ func checkReplayVersion(c *Ctx, l *Loaded) {
 	}
 	if n < 2 {
 		c.anchorMissing(R, "fewer than 2 assignments of tree.version in replayChangelog")
+	}
+}
+
+// checkV2SnapshotLoadsLeaves (C20): a snapshot import is self-contained: the
+// leaves come from the snapshot table, whatever the height filter — the
+// change-log rows of keys that were overwritten later may have been pruned.
+func checkV2SnapshotLoadsLeaves(c *Ctx, l *Loaded, rule string) {
+	c.rule(rule, "Tree.LoadSnapshot imports the snapshot's leaves unconditionally", 1)
+	ls := l.Func("", "*Tree.LoadSnapshot")
+	imp := l.Func("", "*SqliteDb.ImportMostRecentSnapshot")
+	if ls == nil || imp == nil {
+		c.anchorMissing(rule, "v2 Tree.LoadSnapshot / ImportMostRecentSnapshot")
+		return
+	}
+	n := 0
+	for _, in := range callsIn(ls, predStatic(imp)) {
+		cc := callCommon(in)
+		n++
+		k, isC := stripTrivial(cc.Args[len(cc.Args)-1]).(*ssa.Const)
+		c.decide(rule, "LoadSnapshot asks for the leaves", l.ipos(in), isC && k.Value != nil && k.Value.String() == "true", "loadLeaves is the constant true",
+			"the snapshot import loads the leaves only under a condition (`"+roleOf(l, cc.Args[len(cc.Args)-1], "", 0)+"`): otherwise the imported tree reads its leaves from the change log, whose rows for keys overwritten after the snapshot may have been pruned — the hash is right and Get fails")
+	}
+	if n == 0 {
+		c.anchorMissing(rule, "LoadSnapshot no longer calls ImportMostRecentSnapshot")
+	}
+}
+
+// checkV2ReplayLeafValue (C20): the change-log replay feeds each leaf's stored
+// HASH through Tree.Set (isReplaying) so that nothing is rehashed.  The two
+// leaf-writing sites then set node.hash and leave node.value alone: an updated
+// leaf that is still in memory keeps its OLD value, a new one has none.  With
+// leaf eviction (HeightFilter > 0) the leaves are dropped and re-read; with
+// HeightFilter = 0 they stay, and Get answers from them.  On the replay edge a
+// leaf's value must be made consistent (set, or the leaf not retained).
+func checkV2ReplayLeafValue(c *Ctx, l *Loaded, rule string) {
+	c.rule(rule, "a leaf written by the replay does not keep a stale or missing value in memory", 2)
+	fRep := l.Field("", "Tree", "isReplaying")
+	fHash := l.Field("", "Node", "hash")
+	fVal := l.Field("", "Node", "value")
+	if fRep == nil || fHash == nil || fVal == nil {
+		c.anchorMissing(rule, "v2 Tree.isReplaying / Node.hash / Node.value")
+		return
+	}
+	n := 0
+	for _, nm := range []string{"*Tree.recursiveSet", "*Tree.NewLeafNode"} {
+		fn := l.Func("", nm)
+		if fn == nil {
+			c.anchorMissing(rule, "v2 "+nm)
+			continue
+		}
+		for _, b := range fn.Blocks {
+			iff := ifOf(b)
+			if iff == nil || !isLoadOfField(fRep)(stripTrivial(iff.Cond)) {
+				continue
+			}
+			// the replay edge
+			var hashStore, valStore ssa.Instruction
+			for _, bb := range fn.Blocks {
+				if !edgeDominates(b, 0, bb) {
+					continue
+				}
+				for _, in := range bb.Instrs {
+					if isStoreToField(in, fHash) {
+						hashStore = in
+					}
+					if isStoreToField(in, fVal) {
+						valStore = in
+					}
+				}
+			}
+			if hashStore == nil {
+				continue
+			}
+			n++
+			c.decide(rule, l.fname(fn)+": replay edge writes the leaf's hash", l.ipos(hashStore), valStore != nil, "the value is made consistent on the same edge",
+				"on the replay edge the leaf gets the replayed hash while its value is left as it was (the previous value for an updated leaf, none for a new one); with HeightFilter = 0 the leaf stays in memory and Get returns that stale or missing value for every key written between the checkpoint and the loaded version")
+		}
+	}
+	if n < 2 {
+		c.anchorMissing(rule, "fewer than 2 replay edges writing a leaf hash")
 	}
 }
